@@ -73,9 +73,14 @@ HoistVars(h, fe, names) == IF names = <<>> THEN h ELSE HoistVars(Declare(h, fe, 
 Ref(a) == [t |-> "ref", a |-> a]
 IsRef(v) == v.t = "ref"
 RECURSIVE JoinArr(_, _)
-ToPrimH(h, v) ==   \* default ToPrimitive of heap values (no user valueOf/toString in v2)
+\* arrays nested deeper than 5 levels (in particular cyclic ones) are outside the model: ToPrimitive yields Big,
+\* which every consumer turns into the outcome "unmodelled"
+RECURSIVE TooDeep(_, _, _)
+TooDeep(h, v, d) == v.t = "ref" /\ h[v.a].k = "arr" /\ (d = 0 \/ \E i \in 1..Len(h[v.a].e) : TooDeep(h, h[v.a].e[i], d - 1))
+ToPrimH(h, v) ==   \* default ToPrimitive of heap values (no user valueOf/toString)
   IF v.t = "fun" THEN S(<<102>>) ELSE IF v.t = "err" THEN S(<<69>>)
-  ELSE IF v.t = "ref" THEN (IF h[v.a].k = "arr" THEN S(JoinArr(h, h[v.a].e)) ELSE IF h[v.a].k = "gen" THEN S(<<91,111,98,106,101,99,116,32,71,101,110,101,114,97,116,111,114,93>>) ELSE S(Lit("[object Object]")))
+  ELSE IF v.t = "ref" THEN (IF h[v.a].k = "arr" THEN (IF TooDeep(h, v, 5) THEN Big ELSE S(JoinArr(h, h[v.a].e)))
+                            ELSE IF h[v.a].k = "gen" THEN S(<<91,111,98,106,101,99,116,32,71,101,110,101,114,97,116,111,114,93>>) ELSE S(Lit("[object Object]")))
   ELSE v
 JoinArr(h, es) == IF es = <<>> THEN <<>>
                   ELSE LET x == Head(es)
@@ -134,7 +139,7 @@ LooseEq(a, b) ==
   ELSE IF IsPrim(a) THEN (IF a.t \in {"undef", "null"} THEN FALSE ELSE LooseEq(a, ToPrim(b)))
   ELSE (IF b.t \in {"undef", "null"} THEN FALSE ELSE LooseEq(ToPrim(a), b))
 StrictEq(a, b) == IF IsPrim(a) /\ IsPrim(b) THEN StrictEqP(a, b) ELSE (a.t = b.t /\ a.t \in {"fun", "ref"} /\ a.a = b.a)
-Bin(op, a, b) ==
+BinP(op, a, b) ==
   CASE op = "+" -> LET pa == ToPrim(a) pb == ToPrim(b) IN
                    IF pa.t = "str" \/ pb.t = "str" THEN S(ToStringP(pa) \o ToStringP(pb)) ELSE Add(ToNumberP(pa), ToNumberP(pb))
     [] op = "-" -> Sub(ToNumberP(ToPrim(a)), ToNumberP(ToPrim(b)))
@@ -148,12 +153,15 @@ Bin(op, a, b) ==
     [] op = "!==" -> B(~StrictEq(a, b))
     [] op = "==" -> B(LooseEq(a, b))
     [] op = "!=" -> B(~LooseEq(a, b))
-Un(op, a) ==
+Bin(op, a, b) == IF op \notin {"===", "!=="} /\ (ToPrim(a).t = "big" \/ ToPrim(b).t = "big") THEN Big ELSE BinP(op, a, b)
+UnP(op, a) ==
   CASE op = "-" -> Neg(ToNumberP(ToPrim(a)))
     [] op = "+" -> ToNumberP(ToPrim(a))
     [] op = "!" -> B(~ToBoolean(a))
     [] op = "typeof" -> S(TypeStr(TypeOf(a)))
     [] op = "void" -> U
+
+Un(op, a) == IF op \in {"-", "+"} /\ ToPrim(a).t = "big" THEN Big ELSE UnP(op, a)
 
 ValueKey == <<118,97,108,117,101>>
 DoneKey == <<100,111,110,101>>
@@ -202,6 +210,7 @@ StepFeat ==
     \cup (IF f.f = "catch" /\ c.c = "normal" /\ Nd(f.n).c # 0 THEN {"tcf_catch_normal"} ELSE {})
     \cup (IF f.f \in {"try", "catch"} /\ c.c \in {"break", "continue", "return"} /\ Nd(f.n).c # 0 THEN {"fin_abrupt"} ELSE {})
     \cup (IF f.f = "fin" /\ c.c # "normal" THEN {"fin_override"} ELSE {})
+    \cup (IF f.f = "fin" /\ c.c # "normal" /\ f.pend.c # "normal" THEN {"fin_override_pending"} ELSE {})
     \cup (IF f.f = "setmB" /\ c.c = "normal" /\ f.base.t \notin {"ref", "fun", "err", "undef", "null"} THEN {"set_on_prim"} ELSE {})
     \cup (IF f.f = "label" /\ c.c = "continue" THEN {"continue_thru_label"} ELSE {})
     \cup (IF f.f = "label" /\ c.c \in {"break", "continue"} /\ c.l = "" THEN {"unlabelled_thru_label"} ELSE {})
@@ -217,6 +226,8 @@ StepFeat ==
     \cup (IF f.f \in {"indexB", "setiB"} /\ c.c = "normal" /\ ~IsPrim(c.v) THEN {"key_nonprim"} ELSE {})
     \cup (IF f.f \in {"try", "catch"} /\ c.c \in {"break", "continue"} THEN {"brk_thru_try"} ELSE {})
     \cup (IF f.f \in LoopFrames /\ c.c \in {"break", "continue"} /\ LoopInTryInLoop(Tail(k)) THEN {"brk_loop_in_try_in_loop"} ELSE {})
+    \cup (IF f.f \in LoopFrames /\ c.c \in {"break", "continue"} /\ (\E i \in 1..Len(FnFrames(Tail(k))) : FnFrames(Tail(k))[i].f = "catch")
+           THEN {"brk_in_catch_body"} ELSE {})
     \cup (IF f.f = "mcallA" /\ c.c = "normal" /\ c.v.t \in {"str", "num", "nan", "inf", "nzero", "bool"} THEN {"prim_method"} ELSE {})
     \cup (IF f.f \in {"wbody", "forofB"} /\ c.c \in {"break", "continue"} /\ c.l # "" THEN {"labelled_loop_exit"} ELSE {})
   ELSE IF ctl.m = "ev" THEN
@@ -428,11 +439,12 @@ StepRet == LET c == ctl.c IN
           [] f.f = "indexB" ->
                \* base null/undefined throws before ToPropertyKey
                IF f.base.t \in {"undef", "null"} THEN Go(Ret(Throw(Err("TypeError")))) /\ k' = rest /\ Same
-               ELSE IF f.base.t \in {"fun", "err"} \/ v.t \in {"fun", "err"} THEN Go(Ret(Abrupt("unmodelled", U, ""))) /\ k' = rest /\ Same
+               ELSE IF f.base.t \in {"fun", "err"} \/ v.t \in {"fun", "err"} \/ ToPrim(v).t = "big" THEN Go(Ret(Abrupt("unmodelled", U, ""))) /\ k' = rest /\ Same
                ELSE LET g == GetProp(heap, f.base, KeyOf(heap, v)) IN Go(RetV(g.v)) /\ k' = rest /\ Same
           [] f.f = "setmA" -> Go(Ev(Nd(f.n).c)) /\ k' = <<[f |-> "setmB", base |-> v, key |-> Nd(f.n).key]>> \o rest /\ Same
           [] f.f = "setiA" -> Go(Ev(Nd(f.n).b)) /\ k' = <<[f |-> "setiB", n |-> f.n, base |-> v]>> \o rest /\ Same
-          [] f.f = "setiB" -> Go(Ev(Nd(f.n).c)) /\ k' = <<[f |-> "setmB", base |-> f.base, key |-> IF f.base.t \in {"undef", "null"} THEN <<>> ELSE KeyOf(heap, v)]>> \o rest /\ Same
+          [] f.f = "setiB" -> IF ToPrim(v).t = "big" THEN Go(Ret(Abrupt("unmodelled", U, ""))) /\ k' = rest /\ Same
+                              ELSE Go(Ev(Nd(f.n).c)) /\ k' = <<[f |-> "setmB", base |-> f.base, key |-> IF f.base.t \in {"undef", "null"} THEN <<>> ELSE KeyOf(heap, v)]>> \o rest /\ Same
           [] f.f = "setmB" ->
                LET r == IF f.base.t \in {"fun", "err"} THEN [r |-> "unmodelled", h |-> heap] ELSE SetProp(heap, f.base, f.key, v) IN
                IF r.r = "ok" THEN heap' = r.h /\ Go(RetV(v)) /\ k' = rest /\ UNCHANGED <<env, out>>
